@@ -173,6 +173,17 @@ def followAlias (slots : Slots) (w : String) (q : Packet) : Slots :=
       else acc) slots
   | _ => slots
 
+/-- the operations one line stands for: `AddUserProp` is variadic — one call with several key/value pairs appends them in
+order — every other setter is one operation -/
+def parseSetOps (slots : Slots) (name : String) : List String → Option (List SetOp)
+  | k :: v :: k2 :: rest =>
+    if name == "AddUserProp" then do
+      let op ← parseSetOp slots name [k, v]
+      let more ← parseSetOps slots name (k2 :: rest)
+      pure (op :: more)
+    else (parseSetOp slots name (k :: v :: k2 :: rest)).map ([·])
+  | args => (parseSetOp slots name args).map ([·])
+
 def okOrPanic (tag : String) (panicked : Bool) : String :=
   if panicked then tag ++ " panic" else tag ++ " ok"
 
@@ -188,8 +199,8 @@ def step (slots : Slots) (line : String) : Slots × String :=
     | some kk => ((dropAlias slots s).insert s ⟨Packet.zero kk, false, none⟩, "ok")
     | none => (slots, "bad-op")
   | "SET" :: s :: name :: args => match slots.get? s with
-    | some ⟨p, t, wf⟩ => match parseSetOp slots name args with
-      | some op => match p.apply op with
+    | some ⟨p, t, wf⟩ => match parseSetOps slots name args with
+      | some ops => match ops.foldlM (fun q op => q.apply op) p with
         | some q =>
           let wf' := if name == "SetWill" then args.head? else wf
           (followAlias (slots.insert s ⟨q, t, wf'⟩) s q, "ok")
